@@ -31,7 +31,8 @@ MANIFEST = {
             "Exponential); log_prob never returns NaN for any input class; the mixture log-density is ln sum_i (w_i/sum w) exp lp_i for "
             "any number of components and invariant under rescaling the weights; MultivariateNormal's log-density is "
             "-1/2 |z|^2 - sum ln L_ii - d/2 ln 2 pi with L z = x - mu (forward substitution proved to solve the triangular system); "
-            "samplers: the push-forward map used for sampling is inverted by the map log_prob uses. PARTIAL: identification of |z|^2 with "
+            "samplers: the push-forward map used for sampling is inverted by the map log_prob uses; accessors return the constructor values; the class "
+            "called with raw arguments of any broadcastable shapes is the family on arrays broadcast by NumPy's index rule. PARTIAL: identification of |z|^2 with "
             "(x-mu)^T Sigma^-1 (x-mu) and of prod L_ii^2 with det Sigma is not proved; that a jax.random primitive follows its law is "
             "assumed (KS-tested only); float rounding/overflow is not modelled. The model is tied to /repo on every run by U1-U5.",
     "note": "Trusted: Coq kernel; extraction (ExtrOcamlBasic); ocaml/drv_dens.ml + fops.ml (libm, Lanczos lgamma); harness; numpy "
@@ -136,14 +137,6 @@ def scipy_frozen(fam, B):
     if fam == "logistic":
         return st.logistic(B["loc"], B["scale"])
     raise KeyError(fam)
-
-
-def scipy_logpdf(fam, P, x):
-    B = bparams(fam, P)
-    nd = next(iter(B.values())).ndim
-    with np.errstate(all="ignore"):
-        lp = scipy_frozen(fam, B).logpdf(x)
-    return lp.sum(axis=tuple(range(lp.ndim - nd, lp.ndim))) if nd else lp
 
 
 def textbook_logpdf(fam, B, x):
